@@ -1,5 +1,6 @@
 import Xp.Base.JsonIO
 import Xp.Model.C16World
+import Xp.Model.C16Enrich
 namespace Xp.C16
 open Lean (Json)
 open Xp.IOx
@@ -212,7 +213,104 @@ def runStep (a : Acc) (st : Json) : Acc :=
   { sys := sys1, outs := a.outs ++ [out], ok := a.ok && good && good2,
     why := if !good then "C16:partial-establish" else if !good2 then "C16:inactive-created" else a.why }
 
+/-! ### scenario family `enrich` (Model/C16Enrich.lean) -/
+
+def optJ (j : Json) (k : String) : Option Json := if has j k then some (obj j k) else none
+
+def pairsOf (j : Json) (k : String) : Option (List (String × String)) :=
+  (optJ j k).map fun _ => (arr j k).map fun x =>
+    match x with
+    | .arr a => ((a[0]?.bind (·.getStr?.toOption)).getD "", (a[1]?.bind (·.getStr?.toOption)).getD "")
+    | _ => ("", "")
+
+def svcOfJ (j : Json) : Svc := ⟨str j "name", str j "ns", optStr j "path", optNat j "port"⟩
+def ccOfJ (j : Json) : CC := ⟨optStr j "url", (optJ j "svc").map svcOfJ, str j "ca"⟩
+def hookOfJ (j : Json) : Hook := ⟨str j "name", ccOfJ (obj j "cc"), nat j "rest"⟩
+def convOfJ (j : Json) : Conv :=
+  ⟨str j "strategy", (optJ j "webhook").map fun w => ⟨(optJ w "cc").map ccOfJ, strs w "rv"⟩⟩
+
+def pobjOfJ (j : Json) : PObj :=
+  let hooks := (arr j "hooks").map hookOfJ
+  let shape : Shape := match str j "kind" with
+    | "VWC" => .validating hooks
+    | "MWC" => .mutating hooks
+    | "CRD" => .crd ((optJ j "conv").map convOfJ)
+    | _ => .other
+  ⟨str j "name", pairsOf j "labels", shape, nat j "rest"⟩
+
+def optStrJ : Option String → Json
+  | some s => .str s
+  | none => .null
+
+def svcJ (s : Svc) : Json :=
+  Json.mkObj [("name", .str s.name), ("ns", .str s.ns), ("path", optStrJ s.path),
+    ("port", match s.port with | some n => .num n | none => .null)]
+def ccJ (c : CC) : Json :=
+  Json.mkObj [("url", optStrJ c.url), ("svc", match c.service with | some s => svcJ s | none => .null), ("ca", .str c.caBundle)]
+def hookJ (h : Hook) : Json := Json.mkObj [("name", .str h.name), ("cc", ccJ h.cc), ("rest", .num h.rest)]
+def convJ (c : Conv) : Json :=
+  Json.mkObj [("strategy", .str c.strategy),
+    ("webhook", match c.webhook with
+      | some w => Json.mkObj [("cc", match w.cc with | some c => ccJ c | none => .null),
+                              ("rv", Json.arr (w.reviewVersions.map Json.str).toArray)]
+      | none => .null)]
+
+def pobjJ (o : PObj) : Json :=
+  let (kind, hooks, conv) : String × List Hook × Option Conv := match o.shape with
+    | .validating hs => ("VWC", hs, none)
+    | .mutating hs => ("MWC", hs, none)
+    | .crd c => ("CRD", [], c)
+    | .other => ("Other", [], none)
+  Json.mkObj [("kind", .str kind), ("name", .str o.name),
+    ("labels", match o.labels with
+      | some l => Json.arr ((l.mergeSort (fun a b => a.1 ≤ b.1)).map fun kv => Json.arr #[.str kv.1, .str kv.2]).toArray
+      | none => .null),
+    ("hooks", Json.arr (hooks.map hookJ).toArray),
+    ("conv", match conv with | some c => convJ c | none => .null),
+    ("rest", .num o.rest)]
+
+/-- one package object, absent from the cluster, put through Establish: `prepare`, then (object
+absent) a dry-run create and a real create for a controlling parent, nothing for another -/
+def enrichHandler (e : Json) : Json × Bool × String :=
+  let pj := obj e "parent"
+  let p : EParent := ⟨str pj "label", (arr pj "owners").map fun r => ⟨str r "kind", str r "name"⟩, pairsOf pj "common"⟩
+  let control := bool e "control"
+  let o := pobjOfJ (obj e "obj")
+  let tls := tlsOf (str pj "tls")
+  -- the object already in the cluster (served under the name asked for), if any
+  let cur : Option PObj := (optJ e "cur").map fun c => pobjOfJ (c.setObjVal! "kind" (.str (str (obj e "obj") "kind")))
+  -- the API-call side of the same Establish, by the model of Model/C16.lean: one object, absent or
+  -- stored with the package as plain owner; `needsCA` read off the structured object
+  let stored : List Obj := match cur with
+    | some c => [⟨o.name, 1, [⟨3, some false, none⟩], c.rest⟩]
+    | none => []
+  let (s1, r) := establish (fun _ => false) Fault.none ⟨31, p.label, [], tls⟩ control ⟨stored, 2, []⟩
+    [⟨o.name, o.rest + 1000, needsCAOf o⟩] [0] [0]
+  let real := s1.log.length
+  match prepare (str e "ns") (str e "crt") tls control p o with
+  | .error _ =>
+    let agree := resStr r == "err" && real == 0
+    (Json.mkObj [("err", .bool true), ("obj", .null), ("dry", .num 0), ("real", .num real),
+        ("looked", Json.arr #[]), ("sub", .null)], agree,
+      if agree then "" else "C16:enrich-guard-mismatch")
+  | .ok o' =>
+    -- what the one goroutine does: Get under the prepared name; absent: an active parent creates the
+    -- prepared object (dry run, then for real), another parent does nothing; present: an active
+    -- parent submits the PREPARED object, another parent the object it READ
+    let writes : Nat := if control || cur.isSome then 1 else 0
+    let sub : Option PObj := match cur with
+      | some c => if control then some o' else some { c with name := o'.name }
+      | none => if control then some o' else none
+    -- model-side monitor: the frame, evaluated on the model's own run
+    let o1 : PObj := { o with labels := o'.labels }
+    let good := o'.frame == o1.frame && (control || o' == o1) && resStr r == "ok" && real == writes
+    (Json.mkObj [("err", .bool false), ("obj", pobjJ o'), ("dry", .num writes), ("real", .num real),
+        ("looked", Json.arr #[.str o'.name]),
+        ("sub", match sub with | some x => pobjJ x | none => .null)], good,
+      if good then "" else "C16:enrich-changed-foreign-field")
+
 def handler : Handler := fun scn =>
+  if has scn "enrich" then .ok (enrichHandler (obj scn "enrich")) else
   let objs := (arr scn "store").zipIdx.map fun (j, i) =>
     (⟨str j "key", i + 1, (arr j "owners").map refOf, nat j "body"⟩ : Obj)
   let s0 : Store := ⟨objs, objs.length + 1, []⟩
